@@ -113,7 +113,7 @@ impl Driver for DispatcherSwap {
             // (simulated 1:1 by the swap contract of this world) is there for a later one
             let mut offered: BTreeMap<String, u128> = BTreeMap::new();
             let mut bal = held.clone();
-            let mut ok = true;
+            let mut ok = true; let mut returns = true;
             for m in r.messages.iter() {
                 if let CosmosMsg::Wasm(WasmMsg::Execute { funds, msg, .. }) = &m.msg {
                     let mut got = 0u128;
@@ -123,10 +123,14 @@ impl Driver for DispatcherSwap {
                         if f.amount.u128() > *e { ok = false; }
                         *e = e.saturating_sub(f.amount.u128()); got += f.amount.u128();
                     }
-                    if let Ok(basset::swap_ext::SwapExecteMsg::SwapDenom { target_denom, .. }) = from_json::<basset::swap_ext::SwapExecteMsg>(msg) { *bal.entry(target_denom).or_insert(0) += got; }
+                    if let Ok(basset::swap_ext::SwapExecteMsg::SwapDenom { target_denom, to_address, .. }) = from_json::<basset::swap_ext::SwapExecteMsg>(msg) {
+                        // proceeds come back only when no other receiver is named
+                        if to_address.is_none() || to_address.as_deref() == Some(MOCK_CONTRACT_ADDR) { *bal.entry(target_denom).or_insert(0) += got; } else { returns = false; }
+                    }
                 }
             }
             c.insert("dswap#never_offers_more_than_held".to_string(), ok);
+            c.insert("dswap#proceeds_return_to_dispatcher".to_string(), returns);
             obs = json!({"offered": offered.iter().map(|(d, a)| json!([d, a.to_string()])).collect::<Vec<_>>()});
         }
         (c, obs)
